@@ -2,7 +2,7 @@
    [reachable E s tr]: s is the RunBundler state after ANY history of ops (any length, any interleaving of
    all 22 ops, legal or not) from a fresh bundler, tr the documents emitted so far; E is any device
    environment.  Statements are per next op from every reachable state. *)
-From BV Require Import Base.Prelude Engine.Bundler Engine.BundlerSpec Engine.BundlerObs Proofs.BundlerC15.
+From BV Require Import Base.Prelude Engine.Bundler Engine.BundlerSpec Engine.BundlerObs Engine.BundlerMulti Proofs.BundlerC15.
 From Coq Require Import ZArith List Bool.
 Import ListNotations.
 
@@ -81,6 +81,26 @@ Theorem C15_guards :
      (forall o r a, step E s (ORead o r a) = (clear_buffers s, [], ROk))).
 Proof. exact guards_all. Qed.
 Print Assumptions C15_guards.
+
+(* the same guards in the RunEngine with SEVERAL runs open (ms = RunEngine._run_bundlers, run key -> bundler):
+   a checkpoint - whatever run key the message carries, registered or not - is refused while ANY run has a
+   bundle open, and otherwise snapshots every run; a configure is refused while the run it belongs to has a
+   bundle open; every other message is handled by its own run's bundler alone *)
+Theorem C15_guards_all_runs :
+  forall E ms k,
+  ((exists k' s', In (k', s') ms /\ b_bundling s' = true) ->
+     mstep E ms (k, OCheckpoint) = (ms, [], [], RErr EIllegalMessageSequence)) /\
+  ((forall k' s', In (k', s') ms -> b_bundling s' = false) ->
+     mstep E ms (k, OCheckpoint) =
+       (map (fun ks => (fst ks, fst (fst (step E (snd ks) OResetCheckpoint)))) ms, [], [], ROk)) /\
+  (forall s o v, dget ms k = Some s -> b_bundling s = true ->
+     mstep E ms (k, OConfigure o v) = (ms, [], [], RErr EIllegalMessageSequence)) /\
+  (forall s o, dget ms k = Some s -> o <> OCheckpoint -> (forall ob v, o <> OConfigure ob v) ->
+     mstep E ms (k, o) =
+       (dset ms k (fst (fst (step E s o))), map (retag_doc k) (snd (fst (step E s o))),
+        b_ledger (fst (fst (step E s o))), snd (step E s o))).
+Proof. exact multi_guards. Qed.
+Print Assumptions C15_guards_all_runs.
 
 (* drop, and save with nothing read: no document, counters (and everything else) untouched, bundle closed *)
 Theorem C15_drop_and_empty_save_emit_nothing :
